@@ -29,6 +29,10 @@ int main(int argc, char** argv) {
         a.inner_pdu(b.clone());
     } else if (op == 6) {
         a.inner_pdu(b);
+    } else if (op == 7 && b.inner_pdu()) {
+        PDU* c = b.inner_pdu()->clone();
+        if (c->parent_pdu() != 0) { printf("DEFECT: a clone of a child layer has a parent link (into its source's tree) although the user owns it\n"); ++bad; }
+        delete c;
     } else {
         IP c(b); if (len(&c) != kb) { printf("DEFECT: copy construction\n"); ++bad; }
     }
